@@ -57,8 +57,17 @@ def _ref_matches(model, q):
   return [s for s in model if s.endswith('.' + q)]
 
 
+def _j(x):
+  """JSON-safe short rendering (config snapshots have tuple keys)."""
+  if isinstance(x, dict):
+    return sorted('%s: %s' % (k, _j(v)) for k, v in x.items())
+  if isinstance(x, (list, tuple)):
+    return [_j(v) for v in x]
+  return x if isinstance(x, (str, int, bool, type(None))) else repr(x)
+
+
 def _fail(fails, clause, expected, observed, sig):
-  fails.append({'clause': clause, 'expected': expected, 'observed': observed,
+  fails.append({'clause': clause, 'expected': _j(expected), 'observed': _j(observed),
                 'signature': '%s %s' % (clause, sig)})
 
 
@@ -320,11 +329,11 @@ def _check_api(case, fails):
     if case['arg2'] == 'x':
       if not raised or _snapshot() != before or gin.config_is_locked():
         _fail(fails, 'hook_conflict_any_spelling', 'ValueError, config untouched',
-              [raised, sorted(map(str, _snapshot().items()))],
+              [raised, _snapshot()],
               'same=%s' % (s1 == s2))
     elif raised or _snapshot() != {(scope, tfull): {'x': 11, 'y': 22}}:
       _fail(fails, 'spelling_same_key', {'x': 11, 'y': 22},
-            [raised, sorted(map(str, _snapshot().items()))], 'hooks distinct params')
+            [raised, _snapshot()], 'hooks distinct params')
     return
 
   gin.parse_config('user.consume.arg = @%s()' % _sc(scope, s2))
@@ -337,7 +346,7 @@ def _check_api(case, fails):
       got = _read(r, scope, sp, wrappers, tfull, consume)
       if got != want:
         _fail(fails, 'spelling_same_key', want, repr(got),
-              '%s read=%s %s' % (sig, r, tag))
+              'read=%s %s' % (r, tag))
 
   _write(case['w1'], scope, s1, 'x', 11)
   reads(s2, 11, 'after_w1')
@@ -352,7 +361,7 @@ def _check_api(case, fails):
   snap.pop(ckey, None)
   if snap != {(scope, tfull): {'x': 22}}:
     _fail(fails, 'spelling_same_key', {(scope, tfull): {'x': 22}},
-          sorted(map(str, snap.items())), sig + ' one key')
+          snap, sig + ' one key')
   # the name reported for the entry (config_str section headers) resolves back to it
   heads = [l[len('# Parameters for '):-1] for l in gin.config_str().splitlines()
            if l.startswith('# Parameters for ')]
@@ -432,6 +441,15 @@ def _check_const(case, fails):
   sweep(model, 'after clear_config')
   gin.clear_config(clear_constants=True)
   sweep({}, 'after clear_constants')
+  # a reference spelling the macro configurable 'macro' is the key ('mm', 'gin.macro')
+  gin.parse_config('mm = 7\nuser.f.x = @mm/macro()')
+  try:
+    gin.finalize()
+    got = w()
+  except ValueError as e:
+    got = 'ValueError %s' % str(e)[:60]
+  if got != 7:
+    _fail(fails, 'spelling_same_key', 7, got, 'reference to macro by short name')
 
 
 def check(case):
@@ -533,6 +551,8 @@ def cases(tier, rng):
     yield _rand_history(rng, uni)
   for _ in range(500 if tier == 'quick' else 12000):
     yield _api_case(rng, _rand_names(rng, rng.randint(2, 5)))
+  for _ in range(60 if tier == 'quick' else 2000):   # two hooks, two spellings
+    yield _api_case(rng, _rand_names(rng, rng.randint(2, 4)), {'w1': 'hook', 'w2': 'hook'})
   for _ in range(40 if tier == 'quick' else 1500):
     names = _rand_names(rng, rng.randint(2, 4))
     pool = sorted({s for n in names for s in _suffixes(n)} | {'z.f', 'a.b'})
